@@ -32,14 +32,40 @@ type AType struct {
 	Rets   []*AType
 }
 
+var c16Reserved = map[string]bool{"fun": true, "table": true, "type": true, "param": true, "field": true, "class": true, "return": true, "overload": true, "alias": true,
+	"generic": true, "public": true, "protected": true, "private": true, "vararg": true, "const": true, "enum": true, "nil": true, "end": true, "start": true}
+
+// c16Ident draws an identifier over the whole identifier alphabet ([A-Za-z_][A-Za-z0-9_]*), 1-8 characters.
+func c16Ident(r *Rng) string {
+	const first = "abcdefghijklmnopqrstuvwxyzABCDEFGHIJKLMNOPQRSTUVWXYZ_"
+	const rest = first + "0123456789"
+	for {
+		n := r.Range(1, 8)
+		b := make([]byte, n)
+		b[0] = first[r.Intn(len(first))]
+		for i := 1; i < n; i++ {
+			b[i] = rest[r.Intn(len(rest))]
+		}
+		if id := string(b); !c16Reserved[id] && id != "_" {
+			return id
+		}
+	}
+}
+
 var annoNames = []string{"number", "string", "boolean", "any", "nil", "integer", "People", "Man", "Handler", "T"}
 
 func genAType(r *Rng, depth int) *AType {
 	if depth <= 0 {
+		if r.Chance(1, 5) {
+			return &AType{Kind: "name", Name: c16Ident(r)}
+		}
 		return &AType{Kind: "name", Name: r.Pick(annoNames)}
 	}
 	switch r.Intn(10) {
 	case 0, 1, 2:
+		if r.Chance(1, 5) {
+			return &AType{Kind: "name", Name: c16Ident(r)}
+		}
 		return &AType{Kind: "name", Name: r.Pick(annoNames)}
 	case 3, 4:
 		n := r.Range(2, 3)
@@ -67,7 +93,11 @@ func genAType(r *Rng, depth int) *AType {
 		f := &AType{Kind: "fun"}
 		np := r.Range(0, 3)
 		for i := 0; i < np; i++ {
-			f.PNames = append(f.PNames, fmt.Sprintf("p%d", i))
+			if r.Chance(1, 3) {
+				f.PNames = append(f.PNames, c16Ident(r)+fmt.Sprint(i))
+			} else {
+				f.PNames = append(f.PNames, fmt.Sprintf("p%d", i))
+			}
 			f.POpt = append(f.POpt, r.Chance(1, 5))
 			f.PTypes = append(f.PTypes, genAType(r, depth-1))
 		}
@@ -432,10 +462,14 @@ func c16GenCase(r *Rng) c16Case {
 		}
 		return c16Case{Kind: "type", Line: "---@type " + strings.Join(srcs, ", ") + cmt, Want: "type[" + strings.Join(want, ",") + "]", TypeSrc: srcs[0], RTrip: !types[0].hasFun(), Depth: depth}
 	case 2:
-		name := r.Pick([]string{"Man", "People", "Cls1"})
+		name := r.Pick([]string{"Man", "People", "Cls1", c16Ident(r)})
 		var parents []string
 		for i := 0; i < r.Range(0, 3); i++ {
-			parents = append(parents, fmt.Sprintf("Par%d", i))
+			if r.Bool() {
+				parents = append(parents, c16Ident(r)+fmt.Sprint(i))
+			} else {
+				parents = append(parents, fmt.Sprintf("Par%d", i))
+			}
 		}
 		line := "---@class " + name
 		if len(parents) > 0 {
@@ -446,7 +480,7 @@ func c16GenCase(r *Rng) c16Case {
 		vis := r.Pick([]string{"", "public ", "protected ", "private "})
 		code := map[string]int{"": 0, "public ": 0, "protected ": 1, "private ": 2}
 		_ = code
-		fname := r.Pick([]string{"name", "age", "callback", "items"})
+		fname := r.Pick([]string{"name", "age", "callback", "items", c16Ident(r), c16Ident(r)})
 		return c16Case{Kind: "field", Line: "---@field " + vis + fname + " " + ts + cmt, Want: "field[VIS " + fname + " " + t.Sexp() + "]", TypeSrc: ts, RTrip: !t.hasFun(), Depth: depth}
 	case 5:
 		opt := ""
